@@ -281,6 +281,21 @@ func (r *Report) Inconclusive(s string) {
 	r.mu.Unlock()
 }
 
+// KeepOnlyCase drops every violation whose case differs (replays judge one
+// case) and returns how many remain.
+func (r *Report) KeepOnlyCase(cs string) int {
+	r.mu.Lock()
+	defer r.mu.Unlock()
+	var keep []Violation
+	for _, v := range r.viol {
+		if v.Case == cs {
+			keep = append(keep, v)
+		}
+	}
+	r.viol = keep
+	return len(keep)
+}
+
 func (r *Report) NumViolations() int { r.mu.Lock(); defer r.mu.Unlock(); return len(r.viol) }
 
 func (r *Report) KnownHits() map[string]int {
